@@ -5,15 +5,19 @@
   EVERY lawful segmenter `S` and every Unicode data `U`.
   * `C03_notifications_replay`, `C03_motion_copy_pure`: for every public operation, unconditionally;
   * `C03_capacity_*`: the three operations that honour the fixed capacity;
-  * `C03_<op>_total_wf`: no panic from a well-formed state + cursor stays on a boundary, per operation;
-  * `C03_op_total_wf_replay_statement`: the full single statement of DESIGN.md, kept as a `def`
-    (proved so far for the operations listed in `C03_op_total_wf_replay_partial`).
+  * `C03_<op>_total_wf`: no panic from a well-formed state + cursor stays on a boundary, per operation
+    (every public method, incl. `indent`/dedent: `C03_indent_total_wf`);
+  * `C03_op_total_wf_replay_statement`: the full single statement of DESIGN.md, kept as a `def`: it is
+    false for `insert_str` before the cursor (`C03_insertStr_counterexample`); proved for every other
+    operation (`C03_op_total_wf_replay_partial`) and for every operation with the one hypothesis
+    `insert_str`'s index ≥ cursor (`C03_op_total_wf_replay_all_partial`).
 -/
 import Rl.LineBuffer
 import Rl.Spec.LineBuffer
 import Rl.Lemmas.LineBuffer
 import Rl.Lemmas.LineBufferSafe
 import Rl.Lemmas.Motion
+import Rl.Lemmas.Indent
 open Rl Rl.Spec
 
 /-- Clause "reports … a sequence of notifications that, replayed on the old text, yields exactly the
@@ -951,6 +955,86 @@ theorem C03_kill_total_wf (S : Segmenter) (U : UData) (mvt : Movement) (lb : LB)
     exact ⟨r2, lb2, [.startKill] ++ ([] ++ ns2 ++ [.stopKill]),
       by simp [LB.kill, LM.bind_apply, LM.notify, h1, h2], hwf2⟩
 
+/-- `indent` / dedent (vi `>` `<`; `amount : u8`) for EVERY movement, count, word definition and anchor:
+    total from a well-formed state; the cursor, shifted along with its line, stays on a character
+    boundary. (Invariant of the per-line loops: `buf = X ++ joinNl lines ++ Z`, `index = blen X`.) -/
+theorem C03_indent_total_wf (S : Segmenter) (U : UData) (m : Movement) (k : Nat) (d : Bool) (lb : LB)
+    (h : WF lb) (hk : k ≤ 255) :
+    ∃ r lb' ns, LB.indent S U m k d lb = .ok (r, lb', ns) ∧ WF lb' := by
+  rw [indent_eq]
+  have tail : ∀ a b, IsBoundary lb.buf a → IsBoundary lb.buf b → a ≤ b →
+      ∃ lb' ns, LB.indentTail S U k d lb a b lb = .ok (true, lb', ns) ∧ WF lb' :=
+    fun a b hA hB hab => indentTail_ok S U k hk d lb h a b hA hB hab
+  have hpp := tail lb.pos lb.pos h h (Nat.le_refl _)
+  cases m with
+  | wholeLine | beginningOfLine | viFirstPrint | endOfLine | backwardChar n | forwardChar n | viCharSearch n cs =>
+    obtain ⟨lb', ns, h1, h2⟩ := hpp
+    exact ⟨true, lb', ns, by simp [LM.bind_apply, LM.get, h1], h2⟩
+  | endOfBuffer =>
+    obtain ⟨lb', ns, h1, h2⟩ := tail lb.pos lb.len h (isBoundary_len _) h.le_len
+    exact ⟨true, lb', ns, by simp [LM.bind_apply, LM.get, h1], h2⟩
+  | wholeBuffer =>
+    obtain ⟨lb', ns, h1, h2⟩ := tail 0 lb.len (isBoundary_zero _) (isBoundary_len _) (Nat.zero_le _)
+    exact ⟨true, lb', ns, by simp [LM.bind_apply, LM.get, h1], h2⟩
+  | beginningOfBuffer =>
+    obtain ⟨lb', ns, h1, h2⟩ := tail 0 lb.pos (isBoundary_zero _) h (Nat.zero_le _)
+    exact ⟨true, lb', ns, by simp [LM.bind_apply, LM.get, h1], h2⟩
+  | backwardWord n w =>
+    obtain ⟨r, hr, hp⟩ := prevWordPos_ok S U lb w n h
+    cases r with
+    | none =>
+      obtain ⟨lb', ns, h1, h2⟩ := hpp
+      exact ⟨true, lb', ns, by simp [LM.bind_apply, LM.get, LM.lift, hr, h1], h2⟩
+    | some p =>
+      obtain ⟨hb, hle⟩ := hp p rfl
+      obtain ⟨lb', ns, h1, h2⟩ := tail p lb.pos hb h hle
+      exact ⟨true, lb', ns, by simp [LM.bind_apply, LM.get, LM.lift, hr, h1], h2⟩
+  | forwardWord n a w =>
+    obtain ⟨r, hr, hp⟩ := nextWordPosR_ok_all S U lb a w n false h
+    have hr' : LB.nextWordPos S U lb lb.pos a w n = .ok r := hr
+    cases r with
+    | none =>
+      obtain ⟨lb', ns, h1, h2⟩ := hpp
+      exact ⟨true, lb', ns, by simp [LM.bind_apply, LM.get, LM.lift, hr', h1], h2⟩
+    | some p =>
+      obtain ⟨hb, hle⟩ := hp p rfl
+      obtain ⟨lb', ns, h1, h2⟩ := tail lb.pos p h hb hle
+      exact ⟨true, lb', ns, by simp [LM.bind_apply, LM.get, LM.lift, hr', h1], h2⟩
+  | lineUp n =>
+    obtain ⟨r, hr, hp⟩ := nLinesUp_ok lb n h
+    cases r with
+    | none =>
+      obtain ⟨lb', ns, h1, h2⟩ := hpp
+      exact ⟨true, lb', ns, by simp [LM.bind_apply, LM.get, LM.lift, hr, h1], h2⟩
+    | some ab =>
+      obtain ⟨a, b⟩ := ab
+      obtain ⟨hls, _, hle, _⟩ := hp a b rfl
+      obtain ⟨lb', ns, h1, h2⟩ := tail a lb.pos hls.boundary h hle
+      exact ⟨true, lb', ns, by simp [LM.bind_apply, LM.get, LM.lift, hr, h1], h2⟩
+  | lineDown n =>
+    obtain ⟨r, hr, hp⟩ := nLinesDown_ok lb n h
+    cases r with
+    | none =>
+      obtain ⟨lb', ns, h1, h2⟩ := hpp
+      exact ⟨true, lb', ns, by simp [LM.bind_apply, LM.get, LM.lift, hr, h1], h2⟩
+    | some ab =>
+      obtain ⟨a, b⟩ := ab
+      obtain ⟨_, hbb, _, hle⟩ := hp a b rfl
+      obtain ⟨pre, post, hbuf, hbl⟩ := hbb
+      have hst : sliceTo lb.buf b = .ok pre := by rw [hbuf, hbl]; exact sliceTo_mid pre post
+      by_cases hc : (decide (b > lb.pos) && pre.getLast? == some '\n') = true
+      · have hc' : lb.pos < b ∧ pre.getLast? = some '\n' := by simpa using hc
+        obtain ⟨pre', hpre⟩ := List.getLast?_eq_some_iff.mp hc'.2
+        have hb1 : IsBoundary lb.buf (b - 1) :=
+          ⟨pre', '\n' :: post, by rw [hbuf, hpre]; simp, by rw [hbl, hpre]; simp [utf8Size_newline]⟩
+        obtain ⟨lb', ns, h1, h2⟩ := tail lb.pos (b - 1) h hb1 (by omega)
+        exact ⟨true, lb', ns, by simp [LM.bind_apply, LM.get, LM.lift, hr, hst, hc'.1, hc'.2, h1], h2⟩
+      · have hb0 : IsBoundary lb.buf b := ⟨pre, post, hbuf, hbl⟩
+        obtain ⟨lb', ns, h1, h2⟩ := tail lb.pos b h hb0 hle
+        refine ⟨true, lb', ns, ?_, h2⟩
+        simp only [LM.bind_apply, LM.get, LM.lift, hr, hst, hc]
+        simp [LM.bind_apply, h1]
+
 /-! ### the single statement of DESIGN.md, and the part of it proved so far -/
 
 /-- the five conjuncts of C03 for one operation from one state (motions are shown to send no
@@ -960,23 +1044,26 @@ def C03_OpOK (S : Segmenter) (U : UData) (op : Op) (lb : LB) : Prop :=
     (Op.isMotionOrCopy op = true → lb'.buf = lb.buf ∧ ns = []) ∧
     (Op.honoursCapacity op = true → lb.canGrow = false → blen lb.buf ≤ lb.cap → blen lb'.buf ≤ lb.cap)
 
-/-- FULL statement (not yet a theorem): every public operation, from every well-formed state, with
-    arguments inside the contract of the explicit-index primitives. It is false for `insert_str`
-    (known finding F-C03-insert_str-cursor: the cursor is not adjusted) and not yet proved for the
-    operations outside `C03_opCovered`. -/
+/-- FULL statement (not a theorem on the current tree): every public operation, from every well-formed
+    state, with arguments inside the contract of the explicit-index primitives (and `amount ≤ 255` for
+    `indent`, whose parameter is a `u8`). It is false for `insert_str` only (known finding
+    F-C03-insert_str-cursor: the cursor is not adjusted, `C03_insertStr_counterexample`); it is proved for
+    every other operation (`C03_op_total_wf_replay_partial`) and for `insert_str` at or after the cursor
+    (`C03_op_total_wf_replay_all_partial`). -/
 def C03_op_total_wf_replay_statement : Prop :=
   ∀ (S : Segmenter) (U : UData) (op : Op) (lb : LB), WF lb → Op.argsValid lb op = true → C03_OpOK S U op lb
 
-/-- operations for which totality + cursor validity is proved (the other three conjuncts are proved
-    for every operation) -/
+/-- every public operation except `insert_str` (whose cursor clause is refuted by
+    `C03_insertStr_counterexample`) -/
 def C03_opCovered : Op → Bool
   | .update _ _ | .insert _ _ | .yank _ _ | .moveBackward _ | .moveForward _ | .moveBufferStart
   | .moveBufferEnd | .moveHome | .moveEnd | .isEndOfInput | .delete _ | .backspace _ | .killLine
   | .killBuffer | .discardLine | .discardBuffer | .moveToPrevWord _ _ | .deletePrevWord _ _
   | .replace _ _ _ | .deleteRange _ _ | .setPos _ | .nextPos _ | .moveTo _ _ | .deleteTo _ _
   | .yankPop _ _ | .moveToNextWord _ _ _ | .deleteWord _ _ _ | .kill _ | .copy _
-  | .moveToLineUp _ _ | .moveToLineDown _ _ | .transposeChars | .editWord _ | .transposeWords _ => true
-  | _ => false
+  | .moveToLineUp _ _ | .moveToLineDown _ _ | .transposeChars | .editWord _ | .transposeWords _
+  | .indent _ _ _ => true
+  | .insertStr _ _ => false
 
 theorem C03_run_ok_of {α : Type} {m : LM α} {f : α → Ret} {lb lb' : LB} {r : α} {ns : List Notif}
     (h : m lb = .ok (r, lb', ns)) : (do return f (← m) : LM Ret) lb = .ok (f r, lb', ns) := by
@@ -1091,6 +1178,10 @@ theorem C03_covered_total_wf (S : Segmenter) (U : UData) (op : Op) (lb : LB) (h 
   case copy m =>
     obtain ⟨r, hr⟩ := C03_copy_total S U m lb h
     exact ⟨.optText r, lb, [], by simp [LM.bind_apply, LM.ro, hr], h⟩
+  case indent m k d =>
+    have hk : k ≤ 255 := by simpa [Op.argsValid] using ha
+    obtain ⟨r, lb', ns, h1, h2⟩ := C03_indent_total_wf S U m k d lb h hk
+    exact ⟨_, lb', ns, C03_run_ok_of h1, h2⟩
   case setPos p =>
     have hp : IsBoundary lb.buf p := boundaryB_iff.mp (by simpa [Op.argsValid] using ha)
     obtain ⟨lb', h1, h2, _⟩ := C03_setPos_total_wf S U p lb hp
@@ -1137,6 +1228,21 @@ theorem C03_op_total_wf_replay_partial (S : Segmenter) (U : UData) (op : Op) (lb
       · exact hfit
       · exact h2
 
+/-- The single statement for EVERY operation, the only extra hypothesis being the one `insert_str` needs:
+    its index is not before the cursor (the primitive does not adjust the cursor). -/
+theorem C03_op_total_wf_replay_all_partial (S : Segmenter) (U : UData) (op : Op) (lb : LB) (h : WF lb)
+    (ha : Op.argsValid lb op = true) (hi : ∀ i t, op = .insertStr i t → lb.pos ≤ i) : C03_OpOK S U op lb := by
+  by_cases hc : C03_opCovered op = true
+  · exact C03_op_total_wf_replay_partial S U op lb h ha hc
+  · cases op <;> simp only [C03_opCovered, not_true_eq_false] at hc
+    case insertStr i t =>
+      have hib : IsBoundary lb.buf i := boundaryB_iff.mp (by simpa [Op.argsValid] using ha)
+      obtain ⟨r, lb', ns, h1, hwf⟩ := C03_insertStr_total_wf S U i t lb h hib (hi i t rfl)
+      have hrun : Op.run S U (.insertStr i t) lb = .ok (.bool r, lb', ns) := by
+        unfold Op.run; exact C03_run_ok_of h1
+      exact ⟨_, lb', ns, hrun, hwf, C03_notifications_replay S U _ lb lb' _ ns hrun,
+        by intro hm; simp [Op.isMotionOrCopy] at hm, by intro hcap; simp [Op.honoursCapacity] at hcap⟩
+
 /-- the full statement is NOT true of the current code: `insert_str` before the cursor leaves the
     byte cursor inside a character (known finding F-C03-insert_str-cursor). Witness: "aé", cursor 1,
     `insert_str(0, "é")` → cursor 1 lies inside the inserted 2-byte character. -/
@@ -1157,4 +1263,6 @@ theorem C03_insertStr_counterexample :
 
 example : WF ⟨['á', 'b', '\n', 'c'], 2, 16, false⟩ := ⟨['á'], ['b', '\n', 'c'], rfl, by decide⟩
 example : C03_opCovered (.kill (.forwardWord 2 .beforeEnd .vi)) = true := by decide
+example : C03_opCovered (.indent (.lineDown 3) 33 true) = true := by decide
+example : Op.argsValid ⟨['á', 'b', '\n', 'c'], 2, 16, false⟩ (.indent .wholeBuffer 255 false) = true := by decide
 example : Op.argsValid ⟨['á', 'b', '\n', 'c'], 2, 16, false⟩ (.replace 0 2 ['x']) = true := by decide
